@@ -94,7 +94,11 @@ func hdrFields(r *rand.Rand) string {
 	var fs []string
 	n := 1 + r.Intn(3)
 	for i := 0; i < n; i++ {
-		fs = append(fs, hx(canonHdr(pick(r, hdrNames)))+"="+hx(pick(r, hdrVals)))
+		name := canonHdr(pick(r, hdrNames))
+		fs = append(fs, hx(name)+"="+hx(pick(r, hdrVals)))
+		if r.Intn(4) == 0 { // the same header on a second line: only the first value counts
+			fs = append(fs, hx(name)+"="+hx(pick(r, hdrVals)))
+		}
 	}
 	return " " + strings.Join(fs, " ")
 }
